@@ -193,7 +193,17 @@ class Enumerator(object):
                     v = p.value
                     pred, names = canon.pattern_pred(cond['pat'], ty)
                     tp = p.fork()
-                    self.add_pat_cond(tp, v, pred, names)
+                    nst = canon.nested(cond['pat'])
+                    if nst is not None and names is None:
+                        # `if let V(P) = x`: the variant test, then the test of its field (as a nested match would)
+                        en, vn, sub = nst
+                        outer = canon.render(en, {vn}) if canon.variants_of(en) else '%s::%s(_)' % (en, vn)
+                        self.add_pat_cond(tp, v, outer, {vn})
+                        sen = canon.variant_of_pat(sub)
+                        spred, snames = canon.pattern_pred(sub, sen[0] if sen else None)
+                        self.add_pat_cond(tp, ('field', v, '%s.0' % vn), spred, snames)
+                    else:
+                        self.add_pat_cond(tp, v, pred, names)
                     self.ev.bind_pat(cond['pat'], v, tp.env)
                     out.extend(self.run(node['then'], tp))
                     ep = p.fork()
